@@ -79,6 +79,8 @@ structure Pairing where
   /-- the Go value itself is marshalled by cilium/ebpf (`sysenc.Marshal` = encoding/binary layout),
   so the packed layout must agree with C as well. -/
   wire : Bool
+  /-- a hand-written type of the REAL build (`bpf_utils.go`), required to agree on every GOARCH -/
+  real : Bool := false
 deriving Repr
 
 /-- Explanation of a failed comparison (empty list = agreement). Used by the driver to print a
@@ -157,7 +159,7 @@ def pairing : List Pairing := [
     cAlt := [] },
   { c := "routing_result", go := "stub.bpfRoutingResult", wire := false,
     fields := routingResultFields, cAlt := [] },
-  { c := "routing_result", go := "real.bpfRoutingResult", wire := false,
+  { c := "routing_result", go := "real.bpfRoutingResult", wire := false, real := true,
     fields := routingResultFields, cAlt := [] },
   { c := "routing_handoff_entry", go := "stub.bpfRoutingHandoffEntry", wire := false,
     fields := ("LastSeenNs", "last_seen_ns") :: routingResultFields.map (fun f => ("Result." ++ f.1, "result." ++ f.2)),
@@ -169,7 +171,7 @@ def pairing : List Pairing := [
                ("HasBpfGetCurrentTask", "has_bpf_get_current_task"), ("Padding2", "padding2"),
                ("DaeSocketMark", "dae_socket_mark")],
     cAlt := [] },
-  { c := "dae_param", go := "real.PARAM", wire := true,
+  { c := "dae_param", go := "real.PARAM", wire := true, real := true,
     fields := [("tproxyPort", "tproxy_port"), ("controlPlanePid", "control_plane_pid"),
                ("dae0Ifindex", "dae0_ifindex"), ("daeNetnsId", "dae_netns_id"), ("dae0peerMac", "dae0peer_mac"),
                ("paddingAfterMac", "padding_after_mac"), ("useRedirectPeer", "use_redirect_peer"),
@@ -178,7 +180,7 @@ def pairing : List Pairing := [
     cAlt := [] },
   { c := "lpm_key", go := "stub._bpfLpmKey", wire := true,
     fields := [("PrefixLen", "prefixlen"), ("Data", "data")], cAlt := [] },
-  { c := "lpm_key", go := "real._bpfLpmKey", wire := true,
+  { c := "lpm_key", go := "real._bpfLpmKey", wire := true, real := true,
     fields := [("PrefixLen", "prefixlen"), ("Data", "data")], cAlt := [] },
   { c := "port_range", go := "stub.bpfPortRange", wire := true,
     fields := [("PortStart", "port_start"), ("PortEnd", "port_end")], cAlt := [] },
@@ -217,11 +219,9 @@ def arches64 : List String :=
 /-- All GOARCHes of the release matrix (`.github/workflows/prerelease.yml` + amd64 + arm). -/
 def archesAll : List String := arches64 ++ ["386", "arm", "mipsle", "mips"]
 
-def Pairing.isReal (p : Pairing) : Bool := p.go.startsWith "real."
-
 /-- The arches on which a pairing is required to hold: hand-written real-build types everywhere,
 stub types on the 64-bit ones. -/
-def Pairing.arches (p : Pairing) : List String := if p.isReal then archesAll else arches64
+def Pairing.arches (p : Pairing) : List String := if p.real then archesAll else arches64
 
 /-- Every layout obligation: (pairing, arch) with `"packed"` for wire types that have no implicit
 padding on the Go side.  `wire` stub types with implicit Go padding cannot exist: the packed check is
@@ -235,19 +235,12 @@ def layoutObligations : List (Pairing × String) :=
 writes: per-CPU scratch space of the kernel program. -/
 def handleOnlyMaps : List String := ["pkt_scratch_map"]
 
-/-- The C record named by a map key/value type string (`"struct tuples_key"` ↦ `tuples_key`). -/
-def recNameOfType (t : String) : Option String :=
-  if t.startsWith "struct " then some (t.drop 7).toString
-  else if t.startsWith "union " then some (t.drop 6).toString
-  else none
-
 def isPairedC (n : String) : Bool := pairing.any (fun p => p.c == n)
 
 /-- A shared map's record key/value types are mirrored, and the Go-declared handle exists in C. -/
 def mapOk (m : CMap) : Bool :=
   !Gen.goMapTags.contains m.name || handleOnlyMaps.contains m.name ||
-    ((match recNameOfType m.keyType with | some n => isPairedC n | none => true)
-     && (match recNameOfType m.valType with | some n => isPairedC n | none => true))
+    ((m.keyRec == "" || isPairedC m.keyRec) && (m.valRec == "" || isPairedC m.valRec))
 
 /-- Key/value widths the control plane uses for maps with scalar (or non-struct) keys/values:
 (map, key bytes, value bytes; 0 = not used / not applicable). Hand-written from the Go call sites
